@@ -247,4 +247,109 @@ class Dense(Component):
         ctx.label("dense:%s" % m)
 
 
-COMPONENTS = [Random(), E1Sound(), Dense()]
+_BOOKS = {}
+
+
+def books_sample(offset, size):
+    """Deterministic slices of the bundled books tables (real, Zipf-like token frequencies)."""
+    from ..env import ssj
+    if "t" not in _BOOKS:
+        A, B = ssj.load_books_dataset()
+        _BOOKS["t"] = (A[["ID", "Title", "Author"]].copy(), B[["ID", "Title", "Author"]].copy())
+    A, B = _BOOKS["t"]
+    a = A.iloc[offset % max(1, len(A) - size):][:size].copy()
+    b = B.iloc[(offset * 7) % max(1, len(B) - size):][:size].copy()
+    for df in (a, b):
+        for c in ("Title", "Author"):
+            df[c] = df[c].astype(object)
+    return a, b
+
+
+class Bundled(Component):
+    """Slices of the bundled books data against the brute-force reference model: completeness,
+    soundness and scores on real token-frequency distributions (titles of 1-30 words, 3-grams
+    of author names)."""
+    name = "bundled"
+    kind = "enum"
+    exhaustive = False
+    rule = "every (slice, attribute, tokenizer, measure, threshold) configuration listed"
+
+    def bounds(self, tier):
+        return {"slice_rows": 120 if tier == "quick" else 400,
+                "slices": 4 if tier == "quick" else 12}
+
+    def shards(self, tier):
+        return 16
+
+    def budget_s(self, tier):
+        return 200 if tier == "quick" else 3000
+
+    def cases(self, tier):
+        b = self.bounds(tier)
+        cfgs = [("Title", {"kind": "ws", "return_set": True}),
+                ("Author", {"kind": "qgram", "q": 3, "padding": True, "return_set": False}),
+                ("Title", {"kind": "alnum", "return_set": True})]
+        for k in range(b["slices"]):
+            for attr, tok in cfgs:
+                for m in gen.SET_JOIN_MEASURES:
+                    ts = [2, 4] if m == "OVERLAP" else [0.3, 0.5, 0.8]
+                    for t in ts:
+                        yield {"offset": 211 * k + 17, "rows": b["slice_rows"], "attr": attr,
+                               "tok": tok, "measure": m, "threshold": t,
+                               "op": [">=", ">", "="][k % 3], "n_jobs": [1, 3][k % 2]}
+
+    def check(self, case, ctx):
+        A, B = books_sample(case["offset"], case["rows"])
+        m, t, op, attr = case["measure"], case["threshold"], case["op"], case["attr"]
+        tok = mk_tok(case["tok"])
+        with calls.backend(case["n_jobs"]):
+            if m == "OVERLAP":
+                df = ctx.lib(JOINS[m], A, B, "ID", "ID", attr, attr, tok, t, op, False, None, None,
+                             "l_", "r_", True, case["n_jobs"], False)
+            else:
+                df = ctx.lib(JOINS[m], A, B, "ID", "ID", attr, attr, tok, t, op, True, False,
+                             None, None, "l_", "r_", True, case["n_jobs"], False)
+        if df is None:
+            return
+        otok = oracle.Tok(case["tok"], True)
+        lk, rk = A["ID"].tolist(), B["ID"].tolist()
+        ls = [None if oracle.is_missing(v) else frozenset(otok(v)) for v in A[attr].tolist()]
+        rs = [None if oracle.is_missing(v) else frozenset(otok(v)) for v in B[attr].tolist()]
+        got = {}
+        for i, j, sc in zip(df["l_ID"].tolist(), df["r_ID"].tolist(), df["_sim_score"].tolist()):
+            if (i, j) in got:
+                ctx.violation("join=%s,kind=duplicate-pair" % m, "books slice: (%r, %r) twice"
+                              % (i, j))
+            got[(i, j)] = sc
+        who = "%s_join(%s, %s) threshold=%r op=%s n_jobs=%d on books rows %d.." % (
+            m.lower(), attr, case["tok"]["kind"], t, op, case["n_jobs"], case["offset"])
+        nmust = 0
+        for i, x in enumerate(ls):
+            for j, y in enumerate(rs):
+                k = (lk[i], rk[j])
+                if x is None or y is None or (not x and not y):
+                    continue
+                if not x or not y:
+                    cl = "no"
+                else:
+                    cl = oracle.classify(m, len(x), len(y), len(x & y), t, op)
+                if k in got:
+                    if cl == "no":
+                        ctx.violation("join=%s,kind=non-qualifying-pair-returned" % m,
+                                      "%s returned %r with sizes/overlap %r"
+                                      % (who, k, (len(x), len(y), len(x & y))))
+                    elif not oracle.score_ok(m, len(x), len(y), len(x & y), got[k]):
+                        ctx.violation("join=%s,kind=wrong-score" % m,
+                                      "%s: %r scored %r, sizes/overlap %r"
+                                      % (who, k, got[k], (len(x), len(y), len(x & y))))
+                elif cl == "must":
+                    ctx.violation("join=%s,kind=qualifying-pair-missing" % m,
+                                  "%s does not return %r with sizes/overlap %r"
+                                  % (who, k, (len(x), len(y), len(x & y))))
+                if cl == "must":
+                    nmust += 1
+        ctx.nontrivial(nmust > 0)
+        ctx.label("bundled:%s:%s" % (m, attr))
+
+
+COMPONENTS = [Random(), E1Sound(), Dense(), Bundled()]
